@@ -9,14 +9,18 @@ open CalmVerif CalmVerif.Unparse
 def STree.kids : STree → List STree
   | .mk _ _ _ _ _ children => children
 
-/-- what a child `c` of the scope heading `chain'` inherits: the parent's resolve is one-to-one on the child's
-non-local symbols, and the child's own children satisfy the leak invariant w.r.t. the child -/
-theorem child_hyps (chain' : List Anc) (hi : InjOnRefs chain') (c : STree)
+/-- what a child `c` of the scope heading `chain'` inherits: the resolve of the child before its own table exists is
+one-to-one on the child's non-local symbols, and the child's own children satisfy the leak invariant w.r.t. the child -/
+theorem child_hyps (chain' : List Anc) (hne : chain' ≠ []) (hi : InjOnRefs chain') (hna : ChainNoArgs chain') (c : STree)
     (hl : LeakOK (ckeys (effRefs chain')) c) :
     (∀ x ∈ nonLocalSymbols (c.anc :: chain'), ∀ y ∈ nonLocalSymbols (c.anc :: chain'),
-      resolveChain chain' x = resolveChain chain' y → x = y) ∧
+      resolveChain (c.anc :: chain') x = resolveChain (c.anc :: chain') y → x = y) ∧
     LeakOKList (ckeys (effRefs (c.anc :: chain'))) c.kids := by
   obtain ⟨id, node, kind, refs, decl, children⟩ := c
+  have hemp : chain'.isEmpty = false := by
+    cases chain' with
+    | nil => exact absurd rfl hne
+    | cons a r => rfl
   cases kind with
   | func =>
     simp only [LeakOK] at hl
@@ -24,7 +28,21 @@ theorem child_hyps (chain' : List Anc) (hi : InjOnRefs chain') (c : STree)
     refine ⟨?_, hl.2⟩
     intro x hx y hy hxy
     simp only [List.mem_filter] at hx hy
-    exact hi x (hl.1 x hx.1 (by simpa using hx.2)) y (hl.1 y hy.1 (by simpa using hy.2)) hxy
+    have hxk := hl.1 x hx.1 (by simpa using hx.2)
+    have hyk := hl.1 y hy.1 (by simpa using hy.2)
+    simp only [resolveChain, List.lookup_nil, SKind.isFunc, hemp, Bool.not_false, Bool.and_true] at hxy
+    by_cases hxa : x = "arguments" <;> by_cases hya : y = "arguments"
+    · rw [hxa, hya]
+    · have : (y == "arguments") = false := by simpa using hya
+      simp only [hxa, beq_self_eq_true, if_true, this, Bool.false_eq_true, if_false] at hxy
+      exact absurd hxy.symm (resolveChain_ne_arguments hna hya)
+    · have : (x == "arguments") = false := by simpa using hxa
+      simp only [hya, beq_self_eq_true, if_true, this, Bool.false_eq_true, if_false] at hxy
+      exact absurd hxy (resolveChain_ne_arguments hna hxa)
+    · have h1 : (x == "arguments") = false := by simpa using hxa
+      have h2 : (y == "arguments") = false := by simpa using hya
+      simp only [h1, h2, Bool.false_eq_true, if_false] at hxy
+      exact hi x hxk y hyk hxy
   | «catch» sym u =>
     simp only [LeakOK] at hl
     simp only [STree.anc, STree.kids, nonLocalSymbols, effRefs]
@@ -36,6 +54,8 @@ theorem child_hyps (chain' : List Anc) (hi : InjOnRefs chain') (c : STree)
     refine ⟨?_, ?_⟩
     · intro x hx y hy hxy
       simp only [List.mem_filter] at hx hy
+      simp only [resolveChain, List.lookup_nil, SKind.isFunc, Bool.and_false, Bool.false_and, Bool.false_eq_true,
+        if_false] at hxy
       exact hi x (hmem x hx.1 (by simpa using hx.2)) y (hmem y hy.1 (by simpa using hy.2)) hxy
     · refine leakOKList_mono ?_ _ hl
       intro x hx
@@ -49,12 +69,12 @@ theorem zip_fst_mem {α β : Type} {l1 : List α} {l2 : List β} {p : α × β} 
 mutual
   theorem buildTree_injTree {cs : List Char} (hnd : cs.Nodup) (hne : cs ≠ []) (kw : List String) :
       ∀ (chain : List Anc) (doSelf : Bool) (t : STree) (r : RTree),
-        KeysDecl chain → (doSelf = false → chain = []) →
+        KeysDecl chain → (doSelf = false → chain = []) → ChainNoArgs chain → r.AllNew (fun v => v ≠ "arguments") →
         (∀ x ∈ nonLocalSymbols (t.anc :: chain), ∀ y ∈ nonLocalSymbols (t.anc :: chain),
-          resolveChain chain x = resolveChain chain y → x = y) →
+          resolveChain (t.anc :: chain) x = resolveChain (t.anc :: chain) y → x = y) →
         LeakOKList (ckeys (effRefs (t.anc :: chain))) t.kids →
         buildTree cs kw chain doSelf t = .ok r → InjTree chain t r
-    | chain, doSelf, .mk id node kind refs decl children, r, hk, hds, hpar, hleak, h => by
+    | chain, doSelf, .mk id node kind refs decl children, r, hk, hds, hna, hr, hpar, hleak, h => by
       simp only [STree.anc, STree.kids] at hpar hleak
       simp only [buildTree] at h
       split at h
@@ -65,6 +85,7 @@ mutual
         · rename_i rcs hrcs
           simp only [Except.ok.injEq] at h
           subst h
+          simp only [RTree.AllNew] at hr
           -- the scope's own table
           have hself : InjOnRefs ({ kind := kind, refs := refs, decl := decl, remapped := rm } :: chain) ∧
               (∀ p ∈ rm, p.1 ∈ declaredBy { kind := kind, refs := refs, decl := decl, remapped := rm }) := by
@@ -118,8 +139,13 @@ mutual
                 exact zip_fst_mem hp
           have hk' : KeysDecl ({ kind := kind, refs := refs, decl := decl, remapped := rm } :: chain) :=
             ⟨hself.2, hk⟩
+          have hna' : ChainNoArgs ({ kind := kind, refs := refs, decl := decl, remapped := rm } :: chain) := by
+            intro a ha p hp
+            rcases List.mem_cons.1 ha with rfl | ha
+            · exact hr.1 p hp
+            · exact hna a ha p hp
           refine ⟨scopeOK_of _ hk' hself.1, ?_⟩
-          refine buildChildren_injTree hnd hne kw _ children rcs hk' hself.1 ?_ hrcs
+          refine buildChildren_injTree hnd hne kw _ children rcs hk' (by simp) hna' hr.2 hself.1 ?_ hrcs
           have : effRefs ({ kind := kind, refs := refs, decl := decl, remapped := rm } :: chain)
               = effRefs ({ kind := kind, refs := refs, decl := decl, remapped := [] } :: chain) := by
             simp only [effRefs]
@@ -127,13 +153,14 @@ mutual
           exact hleak
   theorem buildChildren_injTree {cs : List Char} (hnd : cs.Nodup) (hne : cs ≠ []) (kw : List String) :
       ∀ (chain : List Anc) (ts : List STree) (rs : List RTree),
-        KeysDecl chain → InjOnRefs chain → LeakOKList (ckeys (effRefs chain)) ts →
+        KeysDecl chain → chain ≠ [] → ChainNoArgs chain → AllNewList (fun v => v ≠ "arguments") rs →
+        InjOnRefs chain → LeakOKList (ckeys (effRefs chain)) ts →
         buildChildren cs kw chain ts = .ok rs → InjTreeList chain ts rs
-    | _, [], rs, _, _, _, h => by
+    | _, [], rs, _, _, _, _, _, _, h => by
       simp only [buildChildren, Except.ok.injEq] at h
       subst h
       trivial
-    | chain, c :: rest, rs, hk, hi, hl, h => by
+    | chain, c :: rest, rs, hk, hcne, hna, hrs0, hi, hl, h => by
       simp only [buildChildren] at h
       split at h
       · cases h
@@ -144,14 +171,16 @@ mutual
           simp only [Except.ok.injEq] at h
           subst h
           simp only [LeakOKList] at hl
-          have hc := child_hyps chain hi c hl.1
-          exact ⟨buildTree_injTree hnd hne kw chain true c r hk (fun hf => by cases hf) hc.1 hc.2 hr,
-            buildChildren_injTree hnd hne kw chain rest rs' hk hi hl.2 hrs⟩
+          simp only [AllNewList] at hrs0
+          have hc := child_hyps chain hcne hi hna c hl.1
+          exact ⟨buildTree_injTree hnd hne kw chain true c r hk (fun hf => by cases hf) hna hrs0.1 hc.1 hc.2 hr,
+            buildChildren_injTree hnd hne kw chain rest rs' hk hcne hna hrs0.2 hi hl.2 hrs⟩
 end
 
 /-- the whole run: prewalk, then finalize -/
 theorem finalize_injTree {cs : List Char} (hnd : cs.Nodup) (hne : cs ≠ []) (fl : Flags) (st : St) (fin : Final)
-    (hinv : StackInv st.stack) (h : finalize cs fl st = .ok fin) :
+    (hinv : StackInv st.stack) (h : finalize cs fl st = .ok fin)
+    (hna : fin.tree.AllNew (fun v => v ≠ "arguments")) :
     ∃ g, st.stack = [g] ∧ InjTree [] (closeFrame g) fin.tree := by
   unfold finalize at h
   split at h
@@ -163,9 +192,9 @@ theorem finalize_injTree {cs : List Char} (hnd : cs.Nodup) (hne : cs ≠ []) (fl
       subst h
       refine ⟨g, hg, ?_⟩
       refine buildTree_injTree hnd hne fl.reserved [] fl.obfuscateGlobals (closeFrame g) rt trivial
-        (fun _ => rfl) ?_ ?_ hrt
+        (fun _ => rfl) (fun a ha => by cases ha) hna ?_ ?_ hrt
       · intro x _ y _ hxy
-        simpa [resolveChain] using hxy
+        simpa [resolveChain, closeFrame, STree.anc] using hxy
       · rw [hg] at hinv
         simp only [StackInv] at hinv
         have hl := hinv.1
